@@ -66,6 +66,13 @@ if os.path.exists(g):
     t = t.replace('@GRULES@', open(f'{V}/notes/round_g_rules.md').read().strip())
     t = t.replace('@GLEFT@', "\n".join(gl) if gl else '(none)')
     s = s.replace('### 16.7 Numbers', t + '\n### 16.7 Numbers')
+u = f'{V}/notes/round_u_prose.md'
+if os.path.exists(u):
+    t = open(u).read()
+    for k in ('USILENT', 'ULEFT', 'UGEN'):
+        pth = f'{V}/notes/ph_{k}.txt'
+        t = t.replace('@' + k + '@', open(pth).read().strip() if os.path.exists(pth) else '(pending)')
+    s = s.replace('### 16.7 Numbers', t + '### 16.7 Numbers')
 d = open(f'{V}/DESIGN.md').read()
 i = d.find('\n## 16. ')
 if i >= 0:
